@@ -331,6 +331,16 @@ CLAIMED = {
              "resolved by the Coq model under the same placement.",
         technique="Coq proof (linear arithmetic over arbitrary groupings and placements) + behavioural differential runs + relocation records evaluated by the model",
         design_ref="DESIGN.md §3 C27"),
+    "C28": dict(
+        text="S1: no new model — the property compares one program under two settings of an option, and each option's transformation is modelled elsewhere. Theorems (corollaries): with and "
+             "without -z pack-relative-relocs the loaded image is identical at every address and every base (from C09); a position-independent image is the static image with every address word "
+             "shifted by the base and nothing else changed (from C09); a relaxed instruction has the effect of the original (C14, re-exported); every reference into a merged string section reads "
+             "the bytes it read before (C07, re-exported); the GNU hash table finds every definition (C08, re-exported).",
+        note="Partial: build-id modes, -z now/lazy and the SysV hash table have no theorem and are covered by the runs. Tie: generated C programs run under combinations of output kind, "
+             "--relax/--no-relax, RELR on/off, hash styles (with dlsym of every exported name), build-id modes, string merging on/off, binding mode; all variants must behave the same and each "
+             "option must be seen to have taken effect in the file.",
+        technique="Coq proof (corollaries of the C09/C14/C07/C08 models) + behavioural differential runs across option combinations",
+        design_ref="DESIGN.md §3 C28"),
     "C10": dict(
         text="S1: Gallina model of what wild writes for unwinding (an FDE is kept iff the section its pc-begin points into was loaded and is not empty; one search-table entry per kept FDE with "
              "hdr-relative signed start and FDE pointer; the table sorted by the signed start) and of the consumer (the last entry with start <= pc, then the range check — what libgcc's binary "
